@@ -40,6 +40,7 @@ struct CkInfo {
 	long ci_us = 0, ri_us = 0;
 	std::atomic<unsigned long> gen{0};   // seqlock: odd while a driver op on this checkable is in flight
 	std::atomic<long> runs{0};
+	bool calm = false;       // never paused/disabled/deleted: its lateness measures the lag of the whole system
 	// driver-side bookkeeping for eligibility windows (driver thread only)
 	bool exists = false, paused = false, enabled = true, inperiod = true;
 	long elig_since = -1;
@@ -84,7 +85,13 @@ void SchCheckFn(const Checkable::Ptr& checkable, const CheckResult::Ptr& cr, con
 		return;
 	}
 	CkInfo& ci = *l_Cks[id];
-	Record({'S', NowUs(), id});
+	{
+		// lateness of this execution relative to the time it was scheduled for (schedule_start = next_check at dispatch);
+		// only for calm checkables, whose next_check is never stale
+		long t = NowUs();
+		long late = ci.calm ? std::max(0L, t - ToUs(cr->GetScheduleStart())) : -1;
+		Record({'S', t, id, late});
+	}
 	if (ci.dur_us > 0)
 		Utility::Sleep(ci.dur_us / 1e6);
 	long run = ci.runs.fetch_add(1);
@@ -278,6 +285,7 @@ VOP(sch_run)
 		CkInfo& ci = *l_Cks[id];
 		ci.ci_us = rng.range(imin, imax) * 1000;
 		ci.ri_us = std::max(imin * 1000, ci.ci_us * rng.range(30, 80) / 100);
+		ci.calm = calmMod > 0 && id % calmMod == 0;
 		int m = (int)rng.range(0, 99);
 		ci.mode = m < thrPct ? 3 : (m < thrPct + 15 ? 1 : (m < thrPct + 45 ? 2 : 0));
 		ci.dur_us = rng.chance(slowPct) ? rng.range(dlo, dhi) * 1000 : (rng.chance(30) ? rng.range(1, 5) * 1000 : 0);
@@ -435,7 +443,8 @@ VOP(sch_run)
 	for (const Rec& r : l_Recs) {
 		std::ostringstream o;
 		switch (r.k) {
-			case 'S': case 'E': o << r.k << " " << r.a << " " << r.b; break;
+			case 'S': o << "S " << r.a << " " << r.b << " " << r.c; break;
+			case 'E': o << "E " << r.a << " " << r.b; break;
 			case 'P': o << "P " << r.a << " " << r.s; break;
 			case 'N': o << "N " << r.a << " " << r.b << " " << r.c << " " << r.d << " " << r.e << " " << r.f; break;
 		}
